@@ -174,7 +174,7 @@ def run(ctx):
 
     # 3. generated programs, every configuration
     cfgs = qa.all_configs()
-    n_rand = 1500 if quick else 4000
+    n_rand = 1500 if quick else 2800
     for i in range(n_rand):
         cfg = cfgs[i % len(cfgs)].with_layout((i // len(cfgs)) % 2 == 1)
         ops, s = qa.gen_program(repo, cfg, rng, 12 if i % 3 == 0 else 36, want_refusal=(i % 6 == 0))
